@@ -66,6 +66,16 @@ Proof. exact count_pair_in_well_typed. Qed.
 Theorem C17_caps_well_typed : all_caps_well_typed = true.
 Proof. exact caps_well_typed. Qed.
 
+(* finding C17-valid-on-boolean (repaired in /repo by a `fix:` commit): the value the pinned tree published for
+   pe.signatures[i].valid_on does not satisfy the premise, and the conclusion fails for it *)
+Theorem C17_valid_on_pinned_refuted :
+  ~ Conforms valid_on_type valid_on_pinned
+  /\ typechecks valid_on_type valid_on_path = Some TInteger
+  /\ expression_type TInteger = Some EInteger
+  /\ exists p, model_module_expr valid_on_pinned (ops_of valid_on_path) [PInteger 0] = Ok p
+               /\ ~ prim_has_type p EInteger.
+Proof. exact valid_on_pinned_refuted. Qed.
+
 (* non-vacuity: a conforming value, a type-checked path with a subscript, a defined result *)
 Example C17_access_example :
   let ty := TObject [("sections", TArray (TObject [("name", TBytes); ("size", TInteger)]))]%string in
@@ -86,3 +96,4 @@ Print Assumptions C17_conforms_reflects.
 Print Assumptions C17_trees_wf.
 Print Assumptions C17_counts.
 Print Assumptions C17_caps_well_typed.
+Print Assumptions C17_valid_on_pinned_refuted.
